@@ -21,5 +21,9 @@ for name in sorted(os.listdir(root)):
     if not det:
         print(f"| {name} | {first} | - | not run |")
     for k, v in det.items():
+        if k.startswith("condition:"):
+            res = "**detected** (condition-level: engine counterexample, replayed natively)" if v.get("detected") else f"not detected ({v.get('status')})"
+            print(f"| {name} | {first} | condition `{v['harness']}:{v['function']}` {v.get('env') or ''} ({v['wall_s']} s) | {res} |")
+            continue
         res = "**detected** (VIOLATION, replayed)" if v["exit"] == 1 else "missed (exit 0)" if v["exit"] == 0 else "inconclusive (exit 3)"
         print(f"| {name} | {first} | `./check {k.replace(':', ' ')}` ({v['wall_s']} s) | {res} |")
